@@ -91,16 +91,16 @@ func VerifC13ResmgrRevert() {
 		}
 
 		if cfg.reject {
-			verifCover(verifC13P+".rejected")
+			verifCover(verifC13P + ".rejected")
 			if rejectedBefore {
-				verifCover(verifC13P+".rejected-twice-in-a-row")
+				verifCover(verifC13P + ".rejected-twice-in-a-row")
 			}
 			verifAssert(verifC13P+".rejected.returns-error", err != nil)
 			verifAssert(verifC13P+".rejected.calls", len(calls) == 2 && calls[0] == interface{}(cfg) && calls[1] == interface{}(accepted))
 			verifAssert(verifC13P+".rejected.policy-in-effect", w.pol.inEffect == interface{}(accepted))
 			verifAssert(verifC13P+".rejected.resmgr-cfg", w.m.cfg == accepted)
 		} else {
-			verifCover(verifC13P+".accepted")
+			verifCover(verifC13P + ".accepted")
 			verifAssert(verifC13P+".accepted.returns-nil", err == nil)
 			verifAssert(verifC13P+".accepted.calls", len(calls) == 1 && calls[0] == interface{}(cfg))
 			verifAssert(verifC13P+".accepted.policy-in-effect", w.pol.inEffect == interface{}(cfg))
@@ -124,5 +124,5 @@ func VerifC13ResmgrRevert() {
 			verifAssert(verifC13P+".container-state-untouched", false)
 		}
 	}
-	verifCover(verifC13P+".done")
+	verifCover(verifC13P + ".done")
 }
